@@ -31,6 +31,9 @@ func c11(c *Check) {
 		"CONV":  "aggregate/keeper.(Keeper).ConvertCoin($0, cosmos-sdk/types.WrapSDKContext({CC}#0), {MSG})",
 	})
 
+	c.Rule("C11/disable-switch-binding", "aggregate ParamSetPairs: the EnableAggregate store key is bound to the EnableAggregate field (and EnableEVMHook to its own), so a governance parameter change that disables the module really closes the conversion gate", 3)
+	paramSetPairsRule(c, "C11/disable-switch-binding", "x/aggregate/types.Params.ParamSetPairs", map[string]string{"EnableAggregate": "fn:aggregate/types.validateBool", "EnableEVMHook": "fn:aggregate/types.validateBool"})
+
 	c.Rule("C11/exact-amount", "every amount-carrying argument of a bank or EVM call in the four conversion functions originates from msg.Coin / msg.Amount through conversions only (no arithmetic, no other source)", 10)
 	type site struct{ fn, callee string }
 	for _, f := range []string{"convertCoinNativeCoin", "convertERC20NativeCoin", "convertERC20NativeToken", "convertCoinNativeERC20"} {
